@@ -352,3 +352,99 @@ def replay(rec):
         if 'fail' in r and all(r.get(k) == rec.get(k) for k in ('op', 'start', 'stop', 'elem')):
             return r['fail']
     return None
+
+
+# ---- primitive (identifier / operator / constant) fields --------------------------------------------------------------------
+# every primitive field of every node of adversarial sources (names that contain keywords as substrings, blanks and line
+# continuations around dots and keywords, multi-byte text) is set to every value of a small alphabet through attribute
+# assignment; CPython judges the result.
+PRIM_SRCS = [
+    'import basket as k', 'import basket', 'import p . q as r', 'import p \\\n .q as r, s', 'import a.b.cas as k, important', 'import aas as asa',
+    'from fromage import basket as k', 'from . import x', 'from .m import (x as y, z)', 'from .. import (a\n  as\n  b)', 'from . m . n import x',
+    'from .a.b import c', 'from m import (a as b, c)', 'from m import é as è, ü',
+    'x = basket.asset.isinstance_', 'x = a . b . c', 'x = a \\\n .b', 'x = (a).b', 'x = 1 .real', 'x = é.ü',
+    'def define(arg, /, largs=1, *args, kwarg, **kwargs): pass', 'async def asyncio_(self): pass', 'class classy(base, metaclass=meta): pass',
+    '@d\ndef   spaced  (a): pass', 'def f[T, *Ts, **P](): pass', 'class C[Tclass: int]: pass', 'type Typed[T] = T',
+    'f(important=1, **starred)', 'f(a, lambda_=2, *b)', 'f(é=1)', 'class C(k=1, **kw): pass',
+    'try: pass\nexcept Exception as exc: pass', 'try: pass\nexcept (A, B) as \\\n exc: pass', 'try: pass\nexcept* E as asas: pass', 'try: pass\nexcept E: pass',
+    'match s:\n    case asas as asa: pass', 'match s:\n    case [*rest, last]: pass', 'match s:\n    case {1: a, **rest}: pass', 'match s:\n    case C(a, kw=b, kw2=c): pass',
+    'match s:\n    case _: pass', 'match s:\n    case [*_]: pass', 'match s:\n    case (1 | 2) as x: pass', 'match s:\n    case {**rest}: pass',
+    'global glob, asg', 'def f():\n    nonlocal non, local', 'x = name + notify - inner * form', 'x = a if b else c', 'x = not a', 'x = -a ** -b',
+    'x = a < b in c', 'x = a and b or c', 'x += 1', 'x = a + b * c', 'x = (a + b) * c', 'x = a ** b ** c', 'x = -a', 'x = a not in b is not c',
+    'x = 1', 'x = "s"', 'x = b"s"', 'x = None', 'x = ...', 'x = 1.5', 'x = 2j', 'x = -1', 'x = "é" "ü"', 'x = a[1]', 'x = f(1, "s")', 'x = [1, True, None]',
+    'for forin in inner: pass', 'with within as aswith: pass', 'lambda lambda_, *a, k, **kw: lambda_', 'x = [elif_ for elif_ in orelse if ifs]',
+    'def f(a: int = 1) -> int: pass', 'x: int = 1', 'del delete', 'assert asserted, msg', 'raise raised from cause', 'return_ = (yield yielded)',
+]
+PRIM_FIELDS = {
+    'Name': ['id'], 'Attribute': ['attr'], 'FunctionDef': ['name'], 'AsyncFunctionDef': ['name'], 'ClassDef': ['name'],
+    'alias': ['name', 'asname'], 'arg': ['arg'], 'keyword': ['arg'], 'ImportFrom': ['module', 'level'], 'ExceptHandler': ['name'],
+    'MatchAs': ['name'], 'MatchStar': ['name'], 'MatchMapping': ['rest'], 'TypeVar': ['name'], 'ParamSpec': ['name'],
+    'TypeVarTuple': ['name'], 'Constant': ['value'], 'BinOp': ['op'], 'UnaryOp': ['op'], 'BoolOp': ['op'], 'AugAssign': ['op'],
+    'MatchSingleton': ['value'],
+}
+IDENT_VALUES = ['zz', 'é', '_', 'as_', None]
+OPS = {'BinOp': ['Add', 'Mult', 'Pow', 'BitOr', 'LShift', 'MatMult', 'FloorDiv'], 'UnaryOp': ['Not', 'USub', 'Invert'], 'BoolOp': ['And', 'Or'],
+       'AugAssign': ['Add', 'Pow', 'RShift', 'FloorDiv']}
+CONST_VALUES = [0, -1, 'é', b'b', None, True, ..., 1.5, 2j, 'a\nb']
+
+
+def prim_cases():
+    return [('p', i) for i in range(len(PRIM_SRCS))]
+
+
+def _prim_values(cls, field):
+    if field == 'op':
+        return [getattr(ast, o)() for o in OPS[cls]]
+    if field == 'value':
+        return [None, True, False] if cls == 'MatchSingleton' else CONST_VALUES
+    if field == 'level':
+        return [0, 1, 2]
+    if field == 'module':
+        return ['zz', 'é.ü', 'pk.md', None]
+    if (cls, field) == ('alias', 'name'):
+        return ['zz', 'é', 'pk.md']
+    return IDENT_VALUES
+
+
+def run_prim_case(case):
+    from fst import FST
+    src = PRIM_SRCS[case[1]]
+    res = []
+    try:
+        root0 = FST(src, 'exec')
+    except Exception as e:
+        return [{'case': list(case), 'setup_error': repr(e)[:120]}]
+    nodes = [(k, f.a.__class__.__name__) for k, f in enumerate(root0.walk(True)) if f.a.__class__.__name__ in PRIM_FIELDS]
+    for k, cls in nodes:
+        for field in PRIM_FIELDS[cls]:
+            for vi, val in enumerate(_prim_values(cls, field)):
+                root = FST(src, 'exec')
+                node = list(root.walk(True))[k]
+                par = node.parent.a.__class__.__name__ if node.parent else '-'
+                rec = {'case': list(case), 'src': src, 'cls': cls, 'field': field, 'op': 'set', 'node': k, 'vi': vi, 'parent': par,
+                       'value': ast.dump(val) if isinstance(val, ast.AST) else repr(val)}
+                try:
+                    with FST.options(norm=True):
+                        setattr(node, field, val)
+                except Exception as e:
+                    rec['raised'] = type(e).__name__
+                    res.append(rec)
+                    continue
+                d = _judge(root)
+                rec['after'] = root.src
+                if d:
+                    rec['fail'] = d
+                res.append(rec)
+    return res
+
+
+def prim_signature(rec):
+    cls = 'no-parse' if rec['fail'].startswith('source no longer parses') else ('structure' if rec['fail'].startswith('structure') else 'positions')
+    return f"C01|prim|{rec['cls']}.{rec['field']}@{rec.get('parent')}|{rec['value']}/{rec['case'][1]}.{rec['node']}|{cls}"
+
+
+def replay_prim(rec):
+    for r in run_prim_case(tuple(rec['case'])):
+        if 'fail' in r and all(r.get(k) == rec.get(k) for k in ('node', 'field', 'vi')):
+            return r['fail']
+    return None
